@@ -37,7 +37,7 @@ REQUIRED = [
     "judged:isolated-free-exact", "judged:one-free-point-one-iteration", "judged:contraction",
     "judged:converged:quad", "judged:converged:hex", "judged:regular-lattice:quad", "judged:regular-lattice:hex",
     "judged:copy-back-shared-point", "judged:grid-vs-faces", "judged:grid-vs-vertices", "judged:written-file",
-    "judged:fixed-after-the-first-smoothing", "late-fix:by-pos", "late-fix:by-idx",
+    "judged:fixed-after-the-first-smoothing", "late-fix:by-pos", "late-fix:by-idx", "judged:sketch-translated-after-smoothing",
     "judged:default-iterations", "moved:free-point", "stage:second-smooth-call",
 ]
 RULE = (
@@ -166,7 +166,7 @@ def _fix_plan(rng, interior, boundary, nbrs, cells, regular):
                 by = rng.choice(["idx", "pos"])
             call = {"by": by, "ids": [int(k) for k in chunk]}
             if by == "idx":
-                call["as"] = rng.choice(["list", "tuple", "set", "ndarray"])
+                call["as"] = rng.choice(["list", "tuple", "set", "ndarray", "generator"])
                 if chunk and rng.random() < 0.2:
                     call["ids"] = call["ids"] + [call["ids"][0]]  # a repeated index
             else:
@@ -625,6 +625,8 @@ def _as_index_arg(ids, how):
         return set(ids)
     if how == "ndarray":
         return np.array(ids, dtype=int)
+    if how == "generator":
+        return (i for i in list(ids))  # a one-shot iterable (the signature says Iterable[int])
     return list(ids)
 
 
@@ -807,7 +809,22 @@ def run_quad(ctx, case):
                 out[node] = np.array(sketch.faces[i].point_array, dtype=float)[c]
         return out
 
-    _late_fix(ctx, case, judge, smoother, read_quad, lambda k: k, "quad")
+    if not _late_fix(ctx, case, judge, smoother, read_quad, lambda k: k, "quad"):
+        return
+    # history: the smoothed sketch is used further - moved as a whole through its own method; every corner of every face
+    # moves by exactly that vector (faces must hold their own copies of the smoothed positions)
+    if int(judge.ext * 1e6) % 2 == 0:
+        d = np.array([0.37, -0.21, 0.0]) * judge.ext
+        before = [np.array(f.point_array, dtype=float) for f in sketch.faces]
+        sketch.translate(list(d))
+        after = [np.array(f.point_array, dtype=float) for f in sketch.faces]
+        ctx.count("judged:sketch-translated-after-smoothing")
+        for i, (b, a) in enumerate(zip(before, after)):
+            if not float(np.max(np.abs(a - b - d))) <= 1e-10 * judge.ext:
+                ctx.violation("translate-after-smoothing-moves-points-unevenly:quad",
+                              f"{judge.describe()}: after smooth() and sketch.translate({d.tolist()}) face {i} moved by "
+                              f"{(a - b).tolist()}")
+                return
 
 
 def _sample(case, judge):
